@@ -223,7 +223,7 @@ void psCRL_RemoveAll()
     psLockMutex(&g_crlTableLock);
 #  endif /* USE_MULTITHREADING */
     curr = g_CRL;
-    next = curr->next;
+    next = (curr != NULL) ? curr->next : NULL; /* the cache may be empty */
     while (next)
     {
         next = curr->next;
